@@ -130,17 +130,44 @@ func c10FetchPush(c *mc.Ctx) {
 		tables[i] = pool[2].st.sum
 	}
 	times := c10times(order, 6)
-	ssums, err := buildCommits(sdb, c10graph, times, tables)
+	// the source of the transfer holds the whole universe; the destination only what its refs reach (as a real
+	// repository would), so a ref moved to a commit that was never transferred is left dangling
+	full := stores.NewMemStore()
+	ssums, err := buildCommits(full, c10graph, times, tables)
 	if err != nil {
 		panic(err)
+	}
+	anc0 := c10graph.Anc()
+	var held uint64
+	for _, r := range refs {
+		if r.rel.old >= 0 {
+			held |= anc0[r.rel.old]
+		}
 	}
 	db, rs, closeFn, err := repo.open()
 	if err != nil {
 		panic(err)
 	}
 	copyTableTo(db, pool[2])
-	if _, err := buildCommits(db, c10graph, times, tables); err != nil {
-		panic(err)
+	for i, sum := range ssums {
+		k := "com/" + string(sum)
+		raw := full.Raw(k)
+		if raw == nil {
+			panic("mc: infrastructure: commit key layout changed")
+		}
+		srcHolds, dstHolds := true, held&(1<<uint(i)) != 0
+		onServer, onClient := srcHolds, dstHolds
+		if op == "push" {
+			onServer, onClient = dstHolds, srcHolds
+		}
+		if onServer {
+			sdb.PutRaw(k, raw)
+		}
+		if onClient {
+			if err := db.Set([]byte(k), raw); err != nil {
+				panic(err)
+			}
+		}
 	}
 	trim := func(s string) string { return strings.TrimPrefix(s, "refs/") }
 	var args []string
@@ -244,6 +271,33 @@ func c10FetchPush(c *mc.Ctx) {
 		if msg := model.CheckRepoRefs(ldb, updated.(model.RefLister)); msg != "" {
 			c.Fail("ref-dangling", "%s; %s", msg, desc)
 			return
+		}
+	}
+	// the receiving side holds the full history, with tables, of every ref of the operation (C09's clause through the CLI)
+	var ddb objects.Store = sdb
+	if op == "fetch" {
+		ddb = ldb
+	}
+	for _, r := range refs {
+		_, dst := r.srcDst(op)
+		got, gerr := updated.Get(trim(dst))
+		if gerr != nil {
+			continue
+		}
+		n := indexOfSum(ssums, got)
+		if n < 0 {
+			continue
+		}
+		for _, a := range model.Bits(anc0[n]) {
+			cm, err := objects.GetCommit(ddb, ssums[a])
+			if err != nil {
+				c.Fail("ref-dangling", "after the %s, %s points to node %d but its ancestor-or-self node %d is not in the receiving store (%v; output %q, err %v); %s", op, dst, n, a, err, out, cerr, desc)
+				return
+			}
+			if !objects.TableExist(ddb, cm.Table) {
+				c.Fail("ref-dangling", "after the %s, node %d reachable from %s has no table in the receiving store; %s", op, a, dst, desc)
+				return
+			}
 		}
 	}
 	c.Outcome(fmt.Sprintf("%s-%s-%s-refused=%v", op, r1.rel.name, r2.rel.name, anyRefused))
@@ -467,7 +521,7 @@ func init() {
 			"every ref that changed has a newest reflog entry with the true old and new values and resolves to a stored commit. non-trivial / distinct = every combination",
 		Assumptions: []string{"for push the reference server applies exactly the updates it is asked to apply, so the check is on what the client requests and reports", "history relations are realised on a fixed 6-commit universe"},
 		Harnesses: []*mc.Harness{
-			{Name: "fetch-push-refs", Body: c10FetchPush, DevBound: map[string]int{"quick": 0, "thorough": 1}, Budget: map[string]time.Duration{"quick": 75 * time.Second, "thorough": 8 * time.Minute}},
+			{Name: "fetch-push-refs", Body: c10FetchPush, DevBound: map[string]int{"quick": 1, "thorough": 2}, Budget: map[string]time.Duration{"quick": 75 * time.Second, "thorough": 8 * time.Minute}},
 			{Name: "merge-pull", Body: c10Merge, DevBound: map[string]int{"quick": 1, "thorough": 2}, Budget: map[string]time.Duration{"quick": 60 * time.Second, "thorough": 5 * time.Minute}},
 		},
 	})
